@@ -750,7 +750,8 @@ class ChildWorld:
             xs = []
             status = 0
             loops = 0
-            for sd in op[1]:
+            mode_ = op[2] if len(op) > 2 and isinstance(op[2], dict) else {}
+            for k_sd, sd in enumerate(op[1]):
                 script.rng_seed = int(sd)
                 eng.setup(script)
                 st_ = int(self.lib.engineexport_verif_status())
@@ -760,6 +761,13 @@ class ChildWorld:
                 xs.append(ob["x"])
                 if ob["t"] != 0.0:
                     ev["t_nonzero"] = ob["t"]
+                if mode_.get("run_every") and k_sd % int(mode_["run_every"]) == int(mode_["run_every"]) - 1:
+                    # this set-up is used: iterated (a few steps, or to completion), the output fetched, and no finalize before the next set-up
+                    for _ in range(3 if k_sd % 2 else 400):
+                        if not eng.iterate():
+                            break
+                    eng.get_output()
+                    continue
                 eng.finalize()
             ev["xs"] = b"".join(xs)
             ev["status"] = status
